@@ -408,6 +408,8 @@ type missCase struct {
 	Parsed2 []seg `json:"parsed2"`
 	// the previous case's report, kept as returned, has not been changed by computing this one
 	PrevSame bool `json:"prevsame"`
+	// sizes beyond 2^31 bytes: the case is stated in units of Unit bytes (0 or 1: bytes); the real computation runs on bytes
+	Unit int `json:"unit"`
 }
 
 func init() {
@@ -495,15 +497,26 @@ var (
 
 // missReport: the real range computation for a chunk set, its 0x9212 encoding, and the encoding read back
 func missReport(i, size int, chunks []seg, reused9212 *model.P0x9212) missCase {
-	p := &attachment.Package{FileSize: uint32(size), OffsetRecord: map[int]int{}, OffsetDataRecord: map[int][]byte{}}
+	return missReportUnit(i, size, chunks, reused9212, 1)
+}
+
+func missReportUnit(i, size int, chunks []seg, reused9212 *model.P0x9212, unit int) missCase {
+	if unit < 1 {
+		unit = 1
+	}
+	p := &attachment.Package{FileSize: uint32(size * unit), OffsetRecord: map[int]int{}, OffsetDataRecord: map[int][]byte{}}
 	for _, ch := range chunks {
-		p.OffsetRecord[ch.Off] = ch.Len
-		p.CurrentSize += uint32(ch.Len)
+		p.OffsetRecord[ch.Off*unit] = ch.Len * unit
+		p.CurrentSize += uint32(ch.Len * unit)
 	}
 	got := []seg{}
 	raw := p.StatisticalMissSegments()
 	for _, s := range raw {
-		got = append(got, seg{int(s.DataOffset), int(s.DataLength)})
+		if int(s.DataOffset)%unit != 0 || int(s.DataLength)%unit != 0 {
+			got = append(got, seg{-2, -2}) // not even a multiple of the unit
+			continue
+		}
+		got = append(got, seg{int(s.DataOffset) / unit, int(s.DataLength) / unit})
 	}
 	// the report computed for the previous package is still what it was (it may not have been encoded and written yet)
 	prevSame := true
@@ -514,9 +527,12 @@ func missReport(i, size int, chunks []seg, reused9212 *model.P0x9212) missCase {
 			}
 		}
 	}
-	heldMiss, heldMissCopy = raw, append([]seg{}, got...)
-	mc := missCase{Size: size, Chunks: chunks, Segs: got, Name: B{}, Wire: B{}, Parsed: []seg{}, Parsed2: []seg{}, PrevSame: prevSame}
-	if len(got) <= 255 {
+	heldMiss, heldMissCopy = raw, nil
+	for _, s := range raw {
+		heldMissCopy = append(heldMissCopy, seg{int(s.DataOffset), int(s.DataLength)})
+	}
+	mc := missCase{Size: size, Chunks: chunks, Segs: got, Name: B{}, Wire: B{}, Parsed: []seg{}, Parsed2: []seg{}, PrevSame: prevSame, Unit: unit}
+	if len(got) <= 255 && unit == 1 {
 		mc.HasWire = true
 		mc.Name = B(fmt.Sprintf("f%d.bin", i))
 		rep := model.P0x9212{FileNameLen: byte(len(mc.Name)), FileName: string(mc.Name), FileType: 2}
@@ -565,7 +581,7 @@ func init() {
 			if err := jsonUnmarshal(raw, &c); err != nil {
 				return err
 			}
-			out.put(missReport(i, c.Size, c.Chunks, reused))
+			out.put(missReportUnit(i, c.Size, c.Chunks, reused, c.Unit))
 			return nil
 		}); err != nil {
 			die(err)
@@ -602,6 +618,23 @@ func init() {
 				}
 			}
 			out.put(missReport(i, pos, chunks, reused9212))
+		}
+		// files of gigabytes (sizes and offsets beyond 2^31 bytes, up to the 4 GiB the size field can say), stated in MiB units:
+		// a few chunks far apart
+		const MiB = 1 << 20
+		for i := 0; i < 16; i++ {
+			size := []int{2049, 3000, 4095, 4095}[i%4]
+			var chunks []seg
+			for pos := r.Intn(3); pos < size; {
+				w := 1 + r.Intn(4)
+				if pos+w > size {
+					w = size - pos
+				}
+				chunks = append(chunks, seg{pos, w})
+				pos += w + []int{0, 1, 2047, 2048, 2049, 1000 + r.Intn(2000)}[r.Intn(6)]
+			}
+			r.Shuffle(len(chunks), func(a, b int) { chunks[a], chunks[b] = chunks[b], chunks[a] })
+			out.put(missReportUnit(n+i, size, chunks, reused9212, MiB))
 		}
 	}
 }
